@@ -1191,7 +1191,7 @@ func (e *Engine) binop(op token.Token, t types.Type, x, y Value) Value {
 			if !e.branch(Not(Eq(yv, BV(yv.W, 0)))) {
 				e.goPanicStr("integer divide by zero")
 			}
-			return divOp(op, xv, yv, signed)
+			return e.divConst(op, xv, yv, signed)
 		case token.AND:
 			return And(xv, yv)
 		case token.OR:
@@ -1387,4 +1387,82 @@ func divOp(op token.Token, x, y Term, signed bool) Term {
 	}
 	name := map[bool]map[token.Token]string{true: {token.QUO: "bvsdiv", token.REM: "bvsrem"}, false: {token.QUO: "bvudiv", token.REM: "bvurem"}}[signed][op]
 	return mk(x.W, "(%s %s %s)", name, x.S(), y.S())
+}
+
+// divConst: division / remainder by a constant that is not a power of two is expressed through fresh
+// quotient and remainder constrained by  x = q*c + r  (no wrap-around: q is bounded), |r| < |c|, sign(r) =
+// sign(x): solvers handle the constant multiplication far better than a 64-bit divider circuit.
+func (e *Engine) divConst(op token.Token, x, y Term, signed bool) Term {
+	if x.IsConst() || !y.IsConst() || x.W < 16 {
+		return divOp(op, x, y, signed)
+	}
+	c := y.C
+	if signed {
+		c = y.Signed()
+	}
+	abs := new(big.Int).Abs(c)
+	if abs.Cmp(big.NewInt(1)) <= 0 || new(big.Int).And(abs, new(big.Int).Sub(abs, big.NewInt(1))).Sign() == 0 {
+		return divOp(op, x, y, signed) // 0, 1 and powers of two: shifts are cheap
+	}
+	// x = a*c + b with 0 <= b < c and a small enough not to wrap (both implied by the path condition, checked
+	// by two range queries without any multiplication): quotient a, remainder b
+	if n := nodeOf(x); n != nil && n.op == "add" {
+		for _, pr := range [][2]Term{{n.a, n.b}, {n.b, n.a}} {
+			m := nodeOf(pr[0])
+			if m == nil || m.op != "mul" {
+				continue
+			}
+			var a Term
+			if sameT(m.b, y) {
+				a = m.a
+			} else if sameT(m.a, y) {
+				a = m.b
+			} else {
+				continue
+			}
+			b := pr[1]
+			w := x.W
+			max := new(big.Int).Sub(new(big.Int).Lsh(big.NewInt(1), uint(w-1)), big.NewInt(1))
+			qmax := new(big.Int).Sub(new(big.Int).Quo(max, abs), big.NewInt(1))
+			inRange := And(And(Sle(BV(w, 0), b), Slt(b, BVb(w, abs))), And(Sle(BV(w, 0), a), Sle(a, BVb(w, qmax))))
+			if c.Sign() > 0 && e.solver.CheckWith(Not(inRange)) == "unsat" {
+				if op == token.QUO {
+					return a
+				}
+				return b
+			}
+		}
+	}
+	key := fmt.Sprintf("div|%s|%s|%v", x.S(), y.S(), signed)
+	type qr struct{ q, r Term }
+	cache, _ := e.pathData["divcache"].(map[string]qr)
+	if cache == nil {
+		cache = map[string]qr{}
+		e.pathData["divcache"] = cache
+	}
+	v, ok := cache[key]
+	if !ok {
+		w := x.W
+		q, r := Fresh(w, "divq"), Fresh(w, "divr")
+		e.solver.Assert(Eq(Add(Mul(q, y), r), x))
+		if signed {
+			max := new(big.Int).Sub(new(big.Int).Lsh(big.NewInt(1), uint(w-1)), big.NewInt(1))
+			qmax := new(big.Int).Quo(max, abs)
+			e.solver.Assert(And(Sle(BVb(w, new(big.Int).Neg(qmax)), q), Sle(q, BVb(w, qmax))))
+			e.solver.Assert(And(Slt(BVb(w, new(big.Int).Neg(abs)), r), Slt(r, BVb(w, abs))))
+			zero := BV(w, 0)
+			e.solver.Assert(Or(Not(Sle(zero, x)), Sle(zero, r)))
+			e.solver.Assert(Or(Not(Sle(x, zero)), Sle(r, zero)))
+		} else {
+			max := new(big.Int).Sub(new(big.Int).Lsh(big.NewInt(1), uint(w)), big.NewInt(1))
+			e.solver.Assert(Ule(q, BVb(w, new(big.Int).Quo(max, abs))))
+			e.solver.Assert(Ult(r, y))
+		}
+		v = qr{q, r}
+		cache[key] = v
+	}
+	if op == token.QUO {
+		return v.q
+	}
+	return v.r
 }
